@@ -351,3 +351,89 @@ restore_preserved = Contract(
                             "diagnostics": ty.TOpaque("diag"), "_preserved_network_counter": ty.Int, "_routing_failed": ty.Bool}},
     properties=("C08",), min_obligations=3, no_replay=True)
 CONTRACTS += [restore_preserved, math_dist, add_wire, route_signal_p, get_placement_p]
+
+
+# =================================================================================================
+# ConnectionPlanner._populate_wire_connections (C12 / frame of the wire plan): every circuit edge that has a source and a sink is
+# handed on EXACTLY ONCE — either inside the spanning-tree fan-out of its own source, signal and colour, or to the direct router —
+# with the colour the colour plan assigned to (source, sink, signal) (red when unassigned); edges of one source / signal / colour
+# are never mixed with another's; an edge that is part of a two-way pair (a feedback loop) is always routed directly; nothing else
+# is routed.  Evaluated on the REAL method (the two routers replaced by recorders; they have their own contracts) over an
+# enumerated box: edge sets of up to 3 edges over 3 entities x 2 signals, colour maps, spanning-tree option on / off / failing: bounded.
+# =================================================================================================
+PWQ = "dsl_compiler/src/layout/connection_planner.py::ConnectionPlanner._populate_wire_connections"
+
+
+def _populate_post(a, res):
+    me = a.self
+    sc = me._scenario
+    want = {}
+    for (s, t, sig) in sc["edges"]:
+        col = sc["colors"].get((s, t, sig), "red")
+        want[(s, t, sig, col)] = want.get((s, t, sig, col), 0) + 1
+    got = {}
+    es = set(sc["edges"])
+    for (s, t, sig, col) in me._direct:
+        got[(s, t, sig, col)] = got.get((s, t, sig, col), 0) + 1
+    for (s, sinks, sig, col) in me._mst:
+        if len(sinks) < 2 or not sc["use_mst"]:
+            return False
+        for t in sinks:
+            if (t, s, sig) in es and sc["colors"].get((t, s, sig), "red") == col:
+                return False   # a two-way pair must not enter a spanning tree
+            got[(s, t, sig, col)] = got.get((s, t, sig, col), 0) + 1
+    if sc["mst_fails"]:
+        # a failed fan-out is routed directly as well: every edge appears at least once directly
+        return all(me._direct.count(k) >= 1 for k in want) and set(got) == set(want)
+    return got == want
+
+
+populate = Contract(qualname=PWQ, params={"self": ty.TOpaque("planner")},
+                    ensures=[("every edge is routed exactly once, under its own source / signal / planned colour; two-way pairs directly", _populate_post)],
+                    verify=False, properties=("C12", "C04"), note="evaluated on the real method over an enumerated box (bounded stand-in)")
+CONTRACTS.append(populate)
+
+
+def populate_arg_sets():
+    from dsl_compiler.src.layout.connection_planner import ConnectionPlanner
+    from dsl_compiler.src.layout.wire_router import CircuitEdge
+
+    class _Diag:
+        def info(self, *a, **k):
+            pass
+        warning = error = info
+
+    class _Recorder(ConnectionPlanner):
+        """the real _populate_wire_connections with the two routers (contracted separately) replaced by recorders"""
+
+        def _route_edge_directly(self, edge, wire_color):
+            self._direct.append((edge.source_entity_id, edge.sink_entity_id, edge.resolved_signal_name, wire_color))
+            return True
+
+        def _apply_mst_to_source_fanout(self, source_id, sink_ids, signal_name, wire_color):
+            self._mst.append((source_id, tuple(sink_ids), signal_name, wire_color))
+            return not self._scenario["mst_fails"]
+
+    ents = ("A", "B", "C")
+    universe = [(s, t, sig) for s in ents for t in ents for sig in ("signal-X", "signal-Y") if not (s == t and sig == "signal-Y")]
+    out = []
+    for k in (1, 2, 3):
+        for combo in itertools.combinations(universe, k):
+            if k == 3 and len({e[0] for e in combo}) == 3 and len({e[2] for e in combo}) == 2:
+                continue  # thin the largest layer
+            for cmode in ("none", "all-green", "first-green"):
+                colors = {}
+                if cmode == "all-green":
+                    colors = {e: "green" for e in combo}
+                elif cmode == "first-green":
+                    colors = {combo[0]: "green"}
+                for use_mst, fails in ((True, False), (False, False), (True, True)):
+                    cp = object.__new__(_Recorder)
+                    cp.diagnostics, cp._memory_modules, cp.use_mst_optimization = _Diag(), {}, use_mst
+                    cp._edge_color_map = dict(colors)
+                    cp._circuit_edges = [CircuitEdge(logical_signal_id=sig, resolved_signal_name=sig, source_entity_id=s, sink_entity_id=t) for (s, t, sig) in combo]
+                    cp._circuit_edges.append(CircuitEdge(logical_signal_id="signal-X", resolved_signal_name="signal-X", source_entity_id=None, sink_entity_id="A"))
+                    cp._direct, cp._mst = [], []
+                    cp._scenario = {"edges": list(combo), "colors": colors, "use_mst": use_mst, "mst_fails": fails}
+                    out.append({"self": cp})
+    return out
